@@ -43,7 +43,7 @@ def run_cases(work, cases, limit, tag):
         outcome = "timeout" if p.returncode == 3 else "abort"
         c = cases[begun]
         ev = {"ev": "decode", "id": c["id"], "entry": c["entry"], "s": c["s"], "bytes": c["bytes"], "limit": min(limit, MAXI),
-              "origin": c.get("origin", ""), "outcome": outcome, "largest": MAXI if outcome == "abort" else 0, "peak": 0,
+              "origin": c.get("origin", ""), "heavy": bool(c.get("heavy", False)), "outcome": outcome, "largest": MAXI if outcome == "abort" else 0, "peak": 0,
               "gen": {"ok": False, "panic": False, "v": {"t": "none"}, "consumed": 0, "err": outcome},
               "ser": {"ok": False, "panic": False, "v": {"t": "none"}, "consumed": 0, "err": outcome}}
         with open(cout, "a") as f:
@@ -54,6 +54,49 @@ def run_cases(work, cases, limit, tag):
             raise vf.ToolError("more than 200 aborting/hanging cases; giving up")
     lines = [json.loads(x) for x in cout.read_text().splitlines() if x.strip()]
     return [x for x in lines if "begin" not in x]
+
+
+def _zz(n):
+    z = (n << 1) ^ (n >> 63)
+    out = []
+    while True:
+        if z < 0x80:
+            out.append(z)
+            return out
+        out.append((z & 0x7F) | 0x80)
+        z >>= 7
+
+
+def multiblock_cases(first_id, limits):
+    """Arrays/maps of zero- or one-byte-wide items written as k blocks, each block's count chosen relative to the
+    allocation limit (limit/64, limit/8 items), positive and negative counts.  Inputs only; TLA+ judges."""
+    null, f0 = {"k": "null"}, {"k": "fixed", "name": "Z0", "size": 0}
+    erec = {"k": "record", "name": "ER", "fields": []}
+    shapes = [("array", {"k": "array", "items": null}, 0), ("array", {"k": "array", "items": f0}, 0),
+              ("array", {"k": "array", "items": erec}, 0), ("array", {"k": "array", "items": {"k": "boolean"}}, 1),
+              ("map", {"k": "map", "values": null}, 1), ("map", {"k": "map", "values": {"k": "boolean"}}, 2)]
+    out = []
+    for limit in limits:
+        if limit > (1 << 20):
+            continue
+        for kind, schema, width in shapes:
+            for per in (max(1, limit // 64), max(1, limit // 8)):
+                if per * width > 20000:
+                    continue
+                for k in (2, 40):
+                    for neg in (False, True):
+                        b = []
+                        for _ in range(k):
+                            if neg:
+                                b += _zz(-per) + _zz(per * width)
+                            else:
+                                b += _zz(per)
+                            b += [0] * (per * width)       # empty keys / false booleans
+                        b += [0]
+                        if len(b) <= 20000 * 41:
+                            out.append({"id": first_id + len(out), "entry": "datum", "s": schema, "bytes": b,
+                                        "origin": f"multiblock-{k}x{per}{'neg' if neg else ''}", "only_limit": limit, "heavy": True})
+    return [c for c in out if len(c["bytes"]) <= 200000]
 
 
 def run(prop, tier, seed, replay=None):
@@ -107,10 +150,15 @@ def run(prop, tier, seed, replay=None):
             rec = {"k": "record", "name": "R", "fields": [{"name": "r", "type": {"k": "ref", "name": "R"}}]}
             cases.append({"id": len(cases), "entry": "datum", "s": rec, "bytes": [], "origin": "uninhabited"})
         limits = [4096, 1 << 20] if tier == "quick" else [4096, 65536, 1 << 20, 512 << 20]
+        if prop == "C05":
+            # limit-aware hostile inputs: many blocks that are each below the limit but add up far beyond it
+            cases += multiblock_cases(len(cases), limits)
     events = []
     # split the cases over the limits (each case under one limit; the enumerated set under the smallest and the largest)
     for li, limit in enumerate(limits):
-        sel = [c for i, c in enumerate(cases) if (i % len(limits)) == li or (c.get("origin") == "enum" and li in (0, len(limits) - 1) and i % 4 == 0)] if not replay else cases
+        sel = [c for i, c in enumerate(cases)
+               if (c.get("only_limit") == limit if "only_limit" in c else
+                   ((i % len(limits)) == li or (c.get("origin") == "enum" and li in (0, len(limits) - 1) and i % 4 == 0)))] if not replay else cases
         evs = run_cases(work, sel, limit, f"L{limit}")
         for e in evs:
             e["id"] = len(events)
